@@ -269,8 +269,30 @@ def check_xmap(prog, rep):
             rep.unrec("R3-xmap", m.name, "%s vanished" % name)
             continue
         rep.saw(f)
-        txt = dump(f.node)
-        sts = [dump(n.value) for n in ast.walk(f.node) if isinstance(n, ast.Assign) and isinstance(n.value, ast.IfExp) and "len(l)" in dump(n.value.test)]
+        # names do not matter: the nested generator is read with its own name and parameters put to (recurse; l, n, k) and the outer parameters to (n, k)
+        import copy as _copy
+        fnode = _copy.deepcopy(f.node)
+        inner_ = [x for x in fnode.body if isinstance(x, ast.FunctionDef)]
+        if len(inner_) == 1 and len(inner_[0].args.args) == 3 and len(fnode.args.args) == 2:
+            ren = {inner_[0].name: "recurse"}
+            ren.update({a_.arg: nm_ for a_, nm_ in zip(inner_[0].args.args, ("l", "n", "k"))})
+            outer_ren = {a_.arg: nm_ for a_, nm_ in zip(fnode.args.args, ("n", "k"))}
+            for x in ast.walk(inner_[0]):
+                if isinstance(x, ast.Name) and x.id in ren:
+                    x.id = ren[x.id]
+                elif isinstance(x, ast.arg) and x.arg in ren:
+                    x.arg = ren[x.arg]
+            inner_[0].name = "recurse"
+            for st_ in fnode.body:
+                if st_ is inner_[0]:
+                    continue
+                for x in ast.walk(st_):
+                    if isinstance(x, ast.Name) and x.id in outer_ren:
+                        x.id = outer_ren[x.id]
+                    elif isinstance(x, ast.Name) and x.id in ren and ren[x.id] == "recurse":
+                        x.id = "recurse"
+        txt = dump(fnode)
+        sts = [dump(n.value) for n in ast.walk(fnode) if isinstance(n, ast.Assign) and isinstance(n.value, ast.IfExp) and "len(l)" in dump(n.value.test)]
         if not sts:
             rep.unrec("R3-xmap", f.qualname, "level start `... if len(l) else 0` not found (another formulation of the index generator)")
         elif sts != [start]:
